@@ -87,6 +87,8 @@ def run(ctx):
     ctx.decided += [
         'D5 in every function of the activity-coefficient module each local is assigned on every path before it is read (under numba an unassigned read is '
         'undefined behaviour: the vertex of a group-less chemical crashed the interpreter)',
+        'D7 in both UNIFAC kernels every composition argument of loggammacs_* / group_activity_coefficients has the form v/v.sum() (the gathered '
+        'sub-composition divided by ITS OWN total): the formulas assume mole fractions that sum to one',
         'D6 in the combinatorial parts every logarithmic term c*ln(R) is accompanied by -c*R: with R_i = a_i/sum_j x_j a_j (and ratios of two such), '
         'sum_i x_i d(-R_i + ln R_i) = 0, and any other coefficient pair leaves a non-zero Gibbs-Duhem residual',
     ]
@@ -99,6 +101,8 @@ def run(ctx):
     d6 = ctx.rule('D6', 'combinatorial term: every c*ln(R) is paired with -c*R (necessary for Gibbs-Duhem)', floor=4)
     definite_assignment(ctx, d5)
     gibbs_duhem_pairing(ctx, d6)
+    d7 = ctx.rule('D7', 'the sub-composition handed to the group-contribution formulas is normalised by its own total', floor=4)
+    normalised_subcomposition(ctx, d7)
     m = prog.module(AC)
     summaries = {}
     for k in KERNELS:
@@ -328,3 +332,46 @@ def gibbs_duhem_pairing(ctx, d6):
                     got = Form({k2: ret.t.get(k2, 0) for k2 in want.t})
                     d6.fail(name, 'gibbs-duhem-pairing', 'the combinatorial term has %s*ln(R) with R = %s but its linear partner is %s instead of %s: '
                             'sum_i x_i dln(gamma_i) does not vanish' % (rest.pretty(), R.pretty(), got.pretty(), want.pretty()), f, p.ret_node)
+
+
+def normalised_subcomposition(ctx, rule):
+    """The combinatorial and residual formulas are written for mole fractions of the chemicals that HAVE groups, summing to one.
+    The kernels gather those chemicals out of the full composition; the gathered vector must then be divided by its own sum
+    (not by the sum of the full composition, which also counts the group-less chemicals)."""
+    prog = ctx.prog
+    m = prog.module(AC)
+    for kn in ('gamma_UNIFAC', 'gamma_modified_UNIFAC'):
+        f = m.functions.get(kn)
+        if f is None:
+            raise AnalysisError('%s not found' % kn)
+        ps, _ = run_paths(f.node)
+        seen = {}
+        for p in ps:
+            for e in p.events:
+                if e.kind != 'call' or not e.value:
+                    continue
+                callee = e.target.split('.')[-1]
+                if callee == 'group_activity_coefficients':
+                    comp = e.value[0]
+                elif callee.startswith('loggammacs'):
+                    comp = e.value[-1]
+                else:
+                    continue
+                if not isinstance(comp, Form):
+                    continue
+                okk = False
+                if len(comp.t) == 1 and list(comp.t.values())[0] == 1:
+                    k = dict(list(comp.t)[0])
+                    pos = [a for a, x in k.items() if x == 1]
+                    neg = [a for a, x in k.items() if x == -1]
+                    okk = len(k) == 2 and len(pos) == 1 and len(neg) == 1 and neg[0] == '%s.sum()' % pos[0]
+                seen.setdefault(callee, []).append((okk, comp, e))
+        if not seen:
+            raise AnalysisError('%s: no call of the group-contribution formulas found' % kn)
+        for callee, items in sorted(seen.items()):
+            bad = [it for it in items if not it[0]]
+            if bad:
+                rule.fail(kn, 'not-normalised-by-own-total', 'the composition handed to %s is %s, not v/v.sum(): the group-contribution formulas receive fractions '
+                          'that do not sum to one whenever a chemical without groups is present' % (callee, bad[0][1].pretty()[:160]), f, bad[0][2].stmt)
+            else:
+                rule.ok(kn, 'the composition handed to %s is v/v.sum() on all %d evaluations' % (callee, len(items)), f, items[0][2].stmt)
